@@ -333,6 +333,12 @@ retry:
                 return status::OK_SCAN_END;
             }
         } else {
+            if (vp == nullptr && lv->is_cleared()) {
+                // the entry is being removed (slot cleared, permutation not
+                // shrunk yet, version unchanged): read this border again.
+                clean_up_tuple_list_nvc();
+                goto retry; // NOLINT
+            }
             auto in_range = [&full_key, &tuple_list, &vp, &node_version_vec,
                              &v_at_fb, &node_version_ptr, &tuple_pushed_num,
                              max_size]() {
